@@ -66,6 +66,7 @@ def mutate_file_text(rng, text):
 
 def run(ctx):
     lean_check(ctx, "I18nVerif.Theorems.C09", "C09_")
+    lean_check(ctx, "I18nVerif.Theorems.C09Pipeline", "C09_")
     binp = build_parser(ctx)
     if binp is None:
         finish_broken(ctx, "harness does not build")
